@@ -535,6 +535,69 @@ func (w *World) checkAnalysisImmutability() {
 		if path == anaPath {
 			continue
 		}
+		// in-place mutation of a slice / map of an analysis node through a library call (sort.Slice(e.Members, ..),
+		// copy(e.Members, ..), slices.Sort..), directly or through a local alias `m := e.Members`
+		for _, f := range p.Syntax {
+			aliases := map[types.Object]bool{}
+			fieldOfAnalysis := func(e ast.Expr) bool {
+				switch y := ast.Unparen(e).(type) {
+				case *ast.SelectorExpr:
+					if sel := p.TypesInfo.Selections[y]; sel != nil && sel.Kind() == types.FieldVal && declaredInAnalysis(sel.Recv()) {
+						switch sel.Type().Underlying().(type) {
+						case *types.Slice, *types.Map:
+							return true
+						}
+					}
+				case *ast.Ident:
+					return aliases[p.TypesInfo.ObjectOf(y)]
+				case *ast.SliceExpr:
+					return false // a re-slice shares the array, but is not tracked: conservative either way is noisy
+				}
+				return false
+			}
+			ast.Inspect(f, func(n ast.Node) bool {
+				if as, ok := n.(*ast.AssignStmt); ok && len(as.Lhs) == len(as.Rhs) {
+					for i, r := range as.Rhs {
+						if id, ok := as.Lhs[i].(*ast.Ident); ok && fieldOfAnalysis(r) {
+							if _, isSel := ast.Unparen(r).(*ast.SelectorExpr); isSel {
+								aliases[p.TypesInfo.ObjectOf(id)] = true
+							}
+						}
+					}
+				}
+				return true
+			})
+			ast.Inspect(f, func(n ast.Node) bool {
+				switch x := n.(type) {
+				case *ast.CallExpr:
+					name := ""
+					switch fn := ast.Unparen(x.Fun).(type) {
+					case *ast.SelectorExpr:
+						if id, ok := fn.X.(*ast.Ident); ok {
+							name = id.Name + "." + fn.Sel.Name
+						}
+					case *ast.Ident:
+						name = fn.Name
+					}
+					mutating := map[string]bool{"sort.Slice": true, "sort.SliceStable": true, "sort.Strings": true, "sort.Ints": true, "sort.Sort": true, "sort.Stable": true,
+						"slices.Sort": true, "slices.SortFunc": true, "slices.SortStableFunc": true, "slices.Reverse": true, "copy": true, "clear": true, "delete": true}
+					if mutating[name] && len(x.Args) > 0 && fieldOfAnalysis(x.Args[0]) {
+						w.AnalysisImmutable = false
+						w.ImmutabilityNotes = append(w.ImmutabilityNotes, w.pos(x.Pos())+" ("+name+" on a slice or map of an analysis node)")
+					}
+				case *ast.AssignStmt:
+					for _, l := range x.Lhs {
+						if ix, ok := ast.Unparen(l).(*ast.IndexExpr); ok {
+							if id, ok := ast.Unparen(ix.X).(*ast.Ident); ok && aliases[p.TypesInfo.ObjectOf(id)] {
+								w.AnalysisImmutable = false
+								w.ImmutabilityNotes = append(w.ImmutabilityNotes, w.pos(l.Pos())+" (store through a local alias of a slice or map of an analysis node)")
+							}
+						}
+					}
+				}
+				return true
+			})
+		}
 		for _, f := range p.Syntax {
 			ast.Inspect(f, func(n ast.Node) bool {
 				var lhs []ast.Expr
